@@ -21,6 +21,7 @@ type Ctx struct {
 
 	graphs map[ast.Node]*cfgx.Graph
 	flows  map[*load.FuncInfo]*fieldFlow
+	ircF   *ircFacts
 }
 
 // Rule set registry: property id -> function.
